@@ -8,7 +8,8 @@ from proto import T
 
 RULE = ('pairs and triples of render-distinct trees: random, related by 1-4 rewrites (commutativity, associativity, repetition, '
         'single-license absorption), and same truth table but not rewrite-related (distributivity); asked on a Licensing with a '
-        'table (keys and aliases), on one without, and on a third created in between, as strings and as parsed objects; Spec on the '
+        'table (keys and aliases, two exception entries), on one built from the same table given as user records (wrapped symbols), on one '
+        'without a table, and on one created in between, as strings, as parsed objects, and as objects parsed by different instances; Spec on the '
         'real code: is_equivalent reflexive, symmetric, sound against truth tables (computed in Lean), True on rewrite-related '
         'pairs, same answer on every instance and for strings as for objects; contains(a,a), contains invariant under replacing '
         'either side by an equivalent, a WITH pair contains its parts, contains(a,b) => licenses of simplified b occur in a. '
@@ -16,12 +17,28 @@ RULE = ('pairs and triples of render-distinct trees: random, related by 1-4 rewr
 ASSUMPTIONS = ['RenderDistinct, as for C07; strings are the default renderings of the trees over operator-word-free keys']
 
 KEYS = ['a', 'b', 'c', 'mit', 'gpl-2.0', 'x1', 'a-alias', 'b-alias']
+EXC = {'c', 'x1'}       # the exception flag is a function of the key, so equal renderings mean equal symbols
+
+
+def flag(t):
+    if t[0] == 'sym':
+        return [t[0], t[1], t[1] in EXC]
+    if t[0] == 'with':
+        return [t[0], t[1], t[1] in EXC, t[3], t[3] in EXC]
+    return [t[0]] + [flag(x) for x in t[1:]]
+
+
+class UserRecord:
+    """a symbol-like record of a user's own license database (Licensing wraps these in LicenseSymbolLike)"""
+
+    def __init__(self, key, aliases, is_exception):
+        self.key, self.aliases, self.is_exception = key, tuple(aliases), is_exception
 
 
 class Prop(BaseProp):
     def case_random(self, rng):
         keys = rng.sample(KEYS, rng.randint(2, 5))
-        mk = lambda: gen.gen_tree(rng, keys, depth=rng.randint(0, 3), maxar=3, with_p=0.2, flags=False)  # noqa
+        mk = lambda: flag(gen.gen_tree(rng, keys, depth=rng.randint(0, 3), maxar=3, with_p=0.2, flags=False))  # noqa
         a = mk()
         r = rng.random()
         if r < 0.4:
@@ -48,8 +65,9 @@ class Prop(BaseProp):
         for t in (a, b, a2, b2):
             if not gen.render_distinct([T('and'), a, b]):
                 return Verdict('skip', case)
-        table = [[k, [k + '-alias'], False] for k in KEYS[:3]]   # 'a-alias' resolves to 'a' on this instance only
+        table = [[k, [k + '-alias'], k in EXC] for k in KEYS[:3]]   # 'a-alias' resolves to 'a' on this instance only
         l1 = P.licensing(table)
+        l4 = impl.le.Licensing([UserRecord(k, al, ex) for k, al, ex in table])    # the same table as user records
         l2 = impl.le.Licensing()
         import random as _random
         wr = _random.Random(len(repr(a))) if len(repr(a)) % 3 == 0 else None
@@ -59,12 +77,21 @@ class Prop(BaseProp):
         try:
             eq = l1.is_equivalent(ea, eb)
             l3 = impl.le.Licensing(['zzz'])
-            answers = {'obj/l1': eq, 'obj/l2': l2.is_equivalent(ea, eb), 'obj/l3': l3.is_equivalent(ea, eb)}
+            answers = {'obj/l1': eq, 'obj/l2': l2.is_equivalent(ea, eb), 'obj/l3': l3.is_equivalent(ea, eb), 'obj/l4': l4.is_equivalent(ea, eb)}
+            # the same table on two instances (plain symbols / wrapped user records): whoever parsed the two sides, the answer is one
+            xanswers = {'strings/l1': l1.is_equivalent(sa, sb), 'strings/l4': l4.is_equivalent(sa, sb),
+                        'l4-parsed vs l1-parsed/l1': l1.is_equivalent(l4.parse(sa), l1.parse(sb)),
+                        'l4-parsed vs l1-parsed/l4': l4.is_equivalent(l4.parse(sa), l1.parse(sb)),
+                        'l4-parsed vs l1-parsed/l2': l2.is_equivalent(l4.parse(sa), l1.parse(sb)),
+                        'l1-parsed vs string/l4': l4.is_equivalent(l1.parse(sa), sb)}
+            xcanswers = {'strings/l1': l1.contains(sa, sb), 'strings/l4': l4.contains(sa, sb),
+                         'l4-parsed vs l1-parsed/l1': l1.contains(l4.parse(sa), l1.parse(sb)),
+                         'l1-parsed vs l4-parsed/l2': l2.contains(l1.parse(sa), l4.parse(sb))}
             ct = l1.contains(ea, eb)
-            canswers = {'obj/l1': ct, 'obj/l2': l2.contains(ea, eb), 'obj/l3': l3.contains(ea, eb)}
+            canswers = {'obj/l1': ct, 'obj/l2': l2.contains(ea, eb), 'obj/l3': l3.contains(ea, eb), 'obj/l4': l4.contains(ea, eb)}
             # strings: the answer on the objects the same instance parses them to (the table-backed instance asks first)
             sanswers = {}
-            for name, l in (('l1', l1), ('l2', l2), ('l3', l3)):
+            for name, l in (('l1', l1), ('l2', l2), ('l3', l3), ('l4', l4)):
                 sanswers[name] = [l.is_equivalent(sa, sb), l.is_equivalent(l.parse(sa), l.parse(sb)), l.is_equivalent(sa, l.parse(sb)),
                                   l.contains(sa, sb), l.contains(l.parse(sa), l.parse(sb)), l.contains(l.parse(sa), sb)]
         except BaseException as e:  # noqa
@@ -73,6 +100,10 @@ class Prop(BaseProp):
             return Verdict('spec', case, 'is_equivalent on parsed objects depends on the instance', impl=answers, tags=tags)
         if len(set(canswers.values())) != 1:
             return Verdict('spec', case, 'contains on parsed objects depends on the instance', impl=canswers, tags=tags)
+        if len(set(xanswers.values())) != 1:
+            return Verdict('spec', case, 'is_equivalent depends on which instance (same table, plain or wrapped symbols) parsed the sides', impl=xanswers, tags=tags)
+        if len(set(xcanswers.values())) != 1:
+            return Verdict('spec', case, 'contains depends on which instance (same table, plain or wrapped symbols) parsed the sides', impl=xcanswers, tags=tags)
         for name, v in sanswers.items():
             if len(set(v[:3])) != 1 or len(set(v[3:])) != 1:
                 return Verdict('spec', case, 'strings are answered differently from their parsed objects (instance %s)' % name, impl=sanswers, tags=tags)
